@@ -81,6 +81,27 @@ def random_cases(R, rng, n):
     return out
 
 
+def positional_cases(R, rng, n):
+    """the environment is built with positional arguments (documented order: fluence, Cd_ratio, fast_ratio,
+    location); the two ratios differ, often one of them is 0; mostly isotopes with fast and resonance rows"""
+    out = []
+    isos = R.isotopes
+    both = [k for k in isos if any(R.fields(i)["fast"] for i in R.rows_of[k])
+            and any(not R.fields(i)["fast"] and R.fields(i)["resonance"] > 0 for i in R.rows_of[k])]
+    for _ in range(n):
+        z, a = rng.choice(both) if both and rng.random() < 0.7 else rng.choice(isos)
+        mass, fl, cd, fr, t = AC.gen_env(rng)
+        r = rng.random()
+        if r < 0.3:
+            cd, fr = rng.choice([25.0, 2.0, 70.0, AC.logu(rng, 1.0, 1e4)]), 0.0
+        elif r < 0.6:
+            cd, fr = 0.0, rng.choice([40.0, 50.0, 1.0, AC.logu(rng, 1e-2, 1e4)])
+        elif cd == fr:
+            fr = cd * 2 + 3.0
+        out.append(("positional", z, a, mass, fl, cd, fr, t, tuple(AC.gen_rests(rng))))
+    return out
+
+
 def resonance_cases(R, rng, per_row):
     """fluences at which the burn-up formula divides by (nearly) zero: a ~ lam + b"""
     out = []
@@ -114,9 +135,34 @@ def boundary_cases(R, rng, n):
 
 # --------------------------------------------------------------------------- real code
 
-def py_activity(R, activation, z, a, mass, fl, cd, fr, t, rests):
+POSITIONAL_FORMS = ["ActivationEnvironment(fluence, Cd_ratio, fast_ratio)",
+                    "ActivationEnvironment(fluence, Cd_ratio, fast_ratio, 'BT-2')",
+                    "ActivationEnvironment(fluence, Cd_ratio, fast_ratio=fast_ratio)"]
+
+
+def positional_form(fl, cd, fr):
+    return hash((float(fl), float(cd), float(fr))) % len(POSITIONAL_FORMS)
+
+
+def make_env(activation, fl, cd, fr, positional=False):
+    """the environment; with `positional` in the documented positional order (fluence, Cd_ratio, fast_ratio,
+    location), in one of three spellings fixed by the numbers"""
+    if not positional:
+        return activation.ActivationEnvironment(fluence=fl, Cd_ratio=cd, fast_ratio=fr)
+    k = positional_form(fl, cd, fr)
+    if k == 0:
+        return activation.ActivationEnvironment(fl, cd, fr)
+    if k == 1:
+        return activation.ActivationEnvironment(fl, cd, fr, "BT-2")
+    return activation.ActivationEnvironment(fl, cd, fast_ratio=fr)
+
+
+def py_activity(R, activation, z, a, mass, fl, cd, fr, t, rests, positional=False):
     iso = R.pt.elements[z][a]
-    env = activation.ActivationEnvironment(fluence=fl, Cd_ratio=cd, fast_ratio=fr)
+    try:
+        env = make_env(activation, fl, cd, fr, positional)
+    except Exception as e:  # noqa
+        return ("err", type(e).__name__)
     try:
         res = activation.activity(iso, mass, env, t, list(rests))
     except Exception as e:  # noqa
@@ -214,14 +260,16 @@ def check_cases(run: Run, R, cases, pool, activation, oracle_all=True):
     pys, need = [], []
     for case, rep in zip(cases, replies):
         stream, z, a, mass, fl, cd, fr, t, rests = case
-        py = py_activity(R, activation, z, a, mass, fl, cd, fr, t, rests)
+        py = py_activity(R, activation, z, a, mass, fl, cd, fr, t, rests, positional=stream == "positional")
         pys.append(py)
         m = AC.parse_iso_reply(rep, len(rests))
         inp = dict(stream=stream, z=z, a=a, mass=mass, fluence=fl, Cd_ratio=cd, fast_ratio=fr,
                    exposure=t, rest_times=list(rests))
+        if stream == "positional":
+            inp["environment"] = POSITIONAL_FORMS[positional_form(fl, cd, fr)]
         text = repr(case[1:])
         run.count(key=text, nontrivial=nontrivial_case(R, case, py),
-                  sample=inp if stream in ("random", "resonance") else None, tag="stream:" + stream)
+                  sample=inp if stream in ("random", "resonance", "positional") else None, tag="stream:" + stream)
         dis = None
         if py[0] != m[0] or (py[0] == "err" and py[1] != m[1]):
             dis = ("outcome", py if py[0] == "err" else "ok", m if m[0] == "err" else "ok")
@@ -261,6 +309,9 @@ def oracle_case(run, R, case, py, wants, activation):
     stream, z, a, mass, fl, cd, fr, t, rests = case
     inp = dict(stream=stream, z=z, a=a, mass=mass, fluence=fl, Cd_ratio=cd, fast_ratio=fr,
                exposure=t, rest_times=list(rests))
+    pos = stream == "positional"
+    if pos:
+        inp["environment"] = POSITIONAL_FORMS[positional_form(fl, cd, fr)]
 
     def viol(what, i, clause, **kw):
         f = R.fields(i)
@@ -307,7 +358,7 @@ def oracle_case(run, R, case, py, wants, activation):
                 break
     # metamorphic clauses on the real code (second calls)
     k = 3.0
-    py2 = py_activity(R, activation, z, a, mass * k, fl, cd, fr, t, rests)
+    py2 = py_activity(R, activation, z, a, mass * k, fl, cd, fr, t, rests, positional=pos)
     if py2[0] != "ok":
         run.violation("activity() raised %s at 3x the mass" % py2[1], inp, error=py2[1],
                       reaction="act", clause="mass", condition="none")
@@ -318,8 +369,8 @@ def oracle_case(run, R, case, py, wants, activation):
                 viol("activity is not proportional to the sample mass", i, "mass", mass_factor=k, got=v2, base=v)
     t2 = min(t * 1.5, AC.EXPOSURE[1] * 1.0000001) if t < AC.EXPOSURE[1] else t
     if t2 > t:
-        p0 = py_activity(R, activation, z, a, mass, fl, cd, fr, t, (0.0,))
-        p2 = py_activity(R, activation, z, a, mass, fl, cd, fr, t2, (0.0,))
+        p0 = py_activity(R, activation, z, a, mass, fl, cd, fr, t, (0.0,), positional=pos)
+        p2 = py_activity(R, activation, z, a, mass, fl, cd, fr, t2, (0.0,), positional=pos)
         if p0[0] == "ok" and p2[0] == "ok":
             for i, v in p0[1].items():
                 f = R.fields(i)
@@ -336,7 +387,7 @@ def oracle_case(run, R, case, py, wants, activation):
             run.violation("activity() raised %s at a longer exposure" % p2[1], dict(inp, exposure=t2),
                           error=p2[1], reaction="act", clause="exposure", condition="none")
     # rest decay relative to the code's own value at removal
-    p0 = py_activity(R, activation, z, a, mass, fl, cd, fr, t, (0.0,))
+    p0 = py_activity(R, activation, z, a, mass, fl, cd, fr, t, (0.0,), positional=pos)
     if p0[0] == "ok":
         for i, v in res.items():
             if i not in p0[1]:
@@ -355,7 +406,7 @@ def oracle_case(run, R, case, py, wants, activation):
                     break
     # epithermal omission: below a Cd ratio of 1 the result is that of Cd ratio 0
     if 0 < cd < 1:
-        pz = py_activity(R, activation, z, a, mass, fl, 0.0, fr, t, rests)
+        pz = py_activity(R, activation, z, a, mass, fl, 0.0, fr, t, rests, positional=pos)
         if pz != py:
             for i in res:
                 if pz[0] != "ok" or pz[1].get(i) != res[i]:
@@ -615,6 +666,105 @@ def check_samples(run: Run, R, n, activation):
                         break
 
 
+STRING_COMPONENTS = [("NaCl", False), ("H2O@1", True), ("Co", False), ("Fe", False), ("Au", False), ("D2O@1.1", True),
+                     ("CaCO3@2.71", True), ("SiO2@2.2", True), ("Li2SO4", False), ("MnO2", False), ("Co30Fe70", False),
+                     ("WO3@7.16", True), ("Cu", False), ("KBr@2.75", True)]
+
+
+def gen_sample_text(rng):
+    """a sample written as a formula STRING in the absolute mass / volume spelling ('5g NaCl // 50mL H2O@1'):
+    the amounts fix the composition, the mass of the sample is the `mass` argument of Sample"""
+    n = rng.choice([1, 2, 2, 2, 3])
+    parts = []
+    for text, dense in rng.sample(STRING_COMPONENTS, n):
+        amount = rng.choice([1, 2, 5, 50, 3, 0.5, 12.5, 250])
+        unit = rng.choice(["g", "mg", "kg", "ug", "ng"] if not dense or rng.random() < 0.5 else ["mL", "L", "uL", "nL"])
+        parts.append("%s%s %s" % (amount, unit, text))
+    return " // ".join(parts)
+
+
+def string_samples(run: Run, R, n, activation):
+    """Sample(formula string with absolute amounts, mass): the activities are those of `mass` grams of the
+    composition - the abundance-weighted sum over the isotopes of mass x mass fraction, computed by activity()
+    for each isotope alone - and proportional to the mass given to Sample"""
+    from periodictable import core
+    from periodictable.formulas import formula
+    rng = run.rng
+    corpus = [("5g NaCl // 50mL H2O@1", 2.0), ("5g NaCl // 50mL H2O@1", 55.0), ("1mg Co // 3mg Fe", 1.0), ("2g Au", 1e-3)]
+    cases = corpus + [(gen_sample_text(rng), AC.gen_env(rng)[0]) for _ in range(n)]
+    for text, mass in cases:
+        _, fl, cd, fr, t = AC.gen_env(rng)
+        rests = AC.gen_rests(rng)
+        inp = dict(kind="sample-string", formula=text, mass=mass, fluence=fl, Cd_ratio=cd, fast_ratio=fr, exposure=t,
+                   rest_times=rests)
+
+        def activities(arg, m):
+            s = activation.Sample(arg, m)
+            s.calculate_activation(activation.ActivationEnvironment(fluence=fl, Cd_ratio=cd, fast_ratio=fr),
+                                   exposure=t, rest_times=list(rests))
+            return {R.index_of[id(k)]: list(v) for k, v in s.activity.items()}
+
+        try:
+            f = formula(text)
+            fractions = list(f.mass_fraction.items())
+        except Exception as e:  # noqa   (reading the string is C01/C11's business)
+            run.count(key=("sample-string", text, mass), nontrivial=False, tag="stream:sample-string-unread")
+            continue
+        try:
+            got = activities(text, mass)
+            got3 = activities(text, mass * 3.0)
+            gotf = activities(f, mass)
+        except Exception as e:  # noqa
+            run.count(key=repr((text, mass, fl, cd, fr, t, rests)), nontrivial=False, sample=inp, tag="stream:sample-string")
+            run.violation("Sample(%r, mass).calculate_activation raised %s" % (text, type(e).__name__), inp,
+                          error=type(e).__name__, reaction="act", clause="natural", condition="none")
+            continue
+        run.count(key=repr((text, mass, fl, cd, fr, t, rests)), nontrivial=len(got) > 1 and any(v[0] > 0 for v in got.values()),
+                  sample=inp, tag="stream:sample-string")
+        expect, ok = {}, True
+        for el, frac in fractions:
+            if core.ision(el):
+                el = el.element
+            if core.isisotope(el):
+                isos = [(el.number, el.isotope, None)]
+            else:
+                isos = [(el.number, i, activation.NIST2001_isotopic_abundance(el[i])) for i in el.isotopes]
+            for z, a, share in isos:
+                m = mass * frac if share is None else mass * frac * share * 0.01
+                if not m or (z, a) not in R.rows_of:
+                    continue
+                r = py_activity(R, activation, z, a, m, fl, cd, fr, t, rests)
+                if r[0] != "ok":
+                    ok = False
+                    break
+                for i, v in r[1].items():
+                    cur = expect.setdefault(i, [Fraction(0)] * len(rests))
+                    expect[i] = [c + Fraction(x) for c, x in zip(cur, v)]
+        if ok:
+            if set(got) != set(expect):
+                run.violation("sample given as a formula string lists other products than its isotopes give", inp,
+                              reaction="act", clause="natural", condition="none")
+            else:
+                for i, v in got.items():
+                    if any(not close(x, float(e), rel=1e-12, abs_=FLOOR) for x, e in zip(v, expect[i])):
+                        run.violation("activity of a sample given as a formula string with absolute amounts is not that "
+                                      "of the given sample mass (mass x mass fraction x abundance of each isotope)",
+                                      dict(inp, row=i, got=v, expected=[float(e) for e in expect[i]],
+                                           total_mass_of_string=getattr(f, "total_mass", None)),
+                                      reaction=R.fields(i)["reaction"], clause="natural", condition="none")
+                        break
+        for other, k, what in ((got3, 3.0, "activity is not proportional to the sample mass (formula string with absolute "
+                                           "amounts, 3x the mass)"),
+                               (gotf, 1.0, "the formula string and the Formula object parsed from it give different "
+                                           "activities for the same sample mass")):
+            bad = next((i for i in got if i not in other or any(
+                not close(x * k, y, rel=1e-12, abs_=FLOOR) for x, y in zip(got[i], other[i]))), None)
+            if bad is not None or set(other) != set(got):
+                run.violation(what, dict(inp, row=bad, mass_factor=k, base=got.get(bad), got=other.get(bad)),
+                              reaction=R.fields(bad)["reaction"] if bad is not None else "act",
+                              clause="mass", condition="none")
+
+
 def fluence_types(run: Run, R, activation):
     """activity() with the fluence given as int / numpy integer / numpy float: the same numbers as
     with the float of the same value, up to the top of the range (1e16 n/cm^2/s)"""
@@ -832,9 +982,11 @@ def run(run: Run) -> int:
         cases += resonance_cases(R, run.rng, 2 if quick else 12)
         cases += boundary_cases(R, run.rng, 300 if quick else 5000)
         cases += random_cases(R, run.rng, 4000 if quick else 150000)
+        cases += positional_cases(R, run.rng, 400 if quick else 10000)
         for i in range(0, len(cases), 20000):
             check_cases(run, R, cases[i:i + 20000], pool, activation)
         check_samples(run, R, 400 if quick else 10000, activation)
+        string_samples(run, R, 150 if quick else 5000, activation)
         fluence_types(run, R, activation)
         private_reload(run, R, activation)
         public_reload(run, activation)
@@ -863,6 +1015,17 @@ def replay(data) -> int:
                 print(" fluence as %s:" % c.__name__, py_activity(R, activation, inp["z"], inp["a"], 1.0,
                                                                  c(inp["fluence"]), 10.0, 50.0, 10.0, [0.0, 1.0, 24.0]))
             continue
+        if inp.get("kind") == "sample-string":
+            for m in (inp["mass"], 3 * inp["mass"]):
+                smp = activation.Sample(inp["formula"], m)
+                smp.calculate_activation(activation.ActivationEnvironment(
+                    fluence=inp["fluence"], Cd_ratio=inp["Cd_ratio"], fast_ratio=inp["fast_ratio"]),
+                    exposure=inp["exposure"], rest_times=inp["rest_times"])
+                print(" Sample(%r, %r): mass used %r" % (inp["formula"], m, smp.mass))
+                for k, val in smp.activity.items():
+                    print("   %s -> %s: %r" % (k.isotope, k.daughter, val))
+            print(" what      :", v.get("what"))
+            continue
         if "z" not in inp:
             print("input:", inp)
             continue
@@ -871,8 +1034,8 @@ def replay(data) -> int:
                 tuple(inp["rest_times"]))
         print("input: isotope %d-%d mass=%r fluence=%r Cd=%r fast=%r exposure=%r rests=%r"
               % ((a, z) + args))
-        py = py_activity(R, activation, z, a, *args)
-        print(" real code :", py)
+        py = py_activity(R, activation, z, a, *args, positional=inp.get("stream") == "positional")
+        print(" real code :", py, inp.get("environment", ""))
         rep = run_driver("activation", [AC.iso_line(z, a, *args)])[0]
         print(" lean model:", AC.parse_iso_reply(rep, len(args[5])))
         for i in R.rows_of[(z, a)]:
